@@ -16,7 +16,7 @@ git checkout -q HEAD -- . ; git clean -fdq -e target
 if [ "$patch" != none ]; then
   if ! git apply "$patch" 2>$S/apply.err; then echo "PATCH DOES NOT APPLY"; cat $S/apply.err; exit 3; fi
 fi
-rsync -a --delete --exclude target /verif/harness/ $S/harness/
+rsync -a --delete --exclude target "${HARNESS_SRC:-/verif/harness}/" $S/harness/
 sed -i "s#/repo/crates#$wt/crates#g" $S/harness/Cargo.toml
 grep -q 'bourse_verif_repo' $S/harness/build.rs 2>/dev/null
 sed -i "s#\"/repo/#\"$wt/#g" $S/harness/build.rs
